@@ -41,6 +41,9 @@ type scenario struct {
 	Others     int // other IPs
 	OtherN     int
 	Ports      int // number of distinct source ports used by A
+	// Crowd: this many further sources send one datagram each in the middle of A's burst (spoofable UDP
+	// sources are free): whatever the service does to bound its bookkeeping, A's allowance must not come back
+	Crowd int
 }
 
 func mkScenario(seed int64, idx int) scenario {
@@ -54,6 +57,11 @@ func mkScenario(seed int64, idx int) scenario {
 		sc.OtherN = r.PickI([]int{1, 4, 5, 20, 100})
 	}
 	sc.Ports = r.PickI([]int{1, 2, sc.N})
+	if idx%30 == 29 {
+		sc.N, sc.Eliciting, sc.Concurrent, sc.Others, sc.OtherN = 24, true, false, 0, 0
+		sc.Ports = r.PickI([]int{1, 24})
+		sc.Crowd = r.PickI([]int{300, 1100, 2500, 5000})
+	}
 	return sc
 }
 
@@ -113,6 +121,13 @@ func plan(seed int64, idx int, sc scenario) []dgram {
 			l = append(l, dgram{ip, 30000 + i, eliciting(sc.Svc, r)})
 		}
 		others = append(others, l)
+	}
+	if sc.Crowd > 0 {
+		out := append([]dgram(nil), a[:len(a)/2]...)
+		for i := 0; i < sc.Crowd; i++ {
+			out = append(out, dgram{fmt.Sprintf("10.%d.%d.%d", 1+(i>>16)&63, (i>>8)&255, i&255), 30000 + i%1000, eliciting(sc.Svc, r)})
+		}
+		return append(out, a[len(a)/2:]...)
 	}
 	// interleave: others' bursts start first, then round-robin
 	var out []dgram
@@ -261,6 +276,20 @@ func (prop) Child(b core.Batch, o *core.Obs) {
 			time.Sleep(time.Millisecond)
 		}
 		ob.Replies, ob.Bytes, _ = count()
+		if sc.Crowd > 0 {
+			// keep the record small: A and every source that got more than one reply
+			for ip, n := range ob.Replies {
+				if ip != ipA && n <= 1 {
+					delete(ob.Replies, ip)
+					delete(ob.Bytes, ip)
+				}
+			}
+			for ip := range ob.Sent {
+				if ip != ipA {
+					delete(ob.Sent, ip)
+				}
+			}
+		}
 		ob.WallMs = time.Since(t0).Milliseconds()
 		o.EmitX("scn", ob)
 		o.End(k)
@@ -295,13 +324,16 @@ func (prop) Judge(b core.Batch, recs []core.Rec, exits []core.Exit) []core.Resul
 				tot += n
 			}
 			if tot > 0 {
-				res.Key = fmt.Sprintf("%s|n%d|e%v|c%v|o%dx%d|p%d|%d", svc, sc.N, sc.Eliciting, sc.Concurrent, sc.Others, sc.OtherN, sc.Ports, idx)
-				res.Sample = map[string]interface{}{"service": svc, "datagrams_from_A": sc.N, "reply_eliciting_only": sc.Eliciting, "concurrent": sc.Concurrent, "other_ips": sc.Others, "datagrams_per_other_ip": sc.OtherN, "source_ports_A": sc.Ports, "replies_per_ip": ob.Replies, "reply_bytes_per_ip": ob.Bytes}
+				res.Key = fmt.Sprintf("%s|n%d|e%v|c%v|o%dx%d|p%d|crowd%d|%d", svc, sc.N, sc.Eliciting, sc.Concurrent, sc.Others, sc.OtherN, sc.Ports, sc.Crowd, idx)
+				res.Sample = map[string]interface{}{"service": svc, "datagrams_from_A": sc.N, "reply_eliciting_only": sc.Eliciting, "concurrent": sc.Concurrent, "other_ips": sc.Others, "datagrams_per_other_ip": sc.OtherN, "source_ports_A": sc.Ports, "crowd_of_single_datagram_sources_in_the_middle": sc.Crowd, "replies_per_ip": ob.Replies, "reply_bytes_per_ip": ob.Bytes}
 			}
 			for ip, n := range ob.Replies {
 				if n > 4 {
 					res.Verdict = core.Violated
 					res.Sig = "C10|" + svc + "|more-than-burst"
+					if sc.Crowd > 0 {
+						res.Sig += "|after-a-crowd-of-other-sources"
+					}
 					res.What = fmt.Sprintf("source %s received %d reply datagrams (%d bytes) for %d requests within one scenario; the limiter's burst is 4", ip, n, ob.Bytes[ip], ob.Sent[ip])
 					res.Witness = map[string]interface{}{"scenario": sc, "observed": ob, "index": idx}
 				}
